@@ -282,3 +282,72 @@ func init() {
 		return runDriver(cc, modulePath+"/httpgrpc", fmt.Sprintf(doHttpCallDriver, scenario, sz), res)
 	}
 }
+
+const interceptDriver = `package grpchan
+
+import (
+	"context"
+	"errors"
+	"testing"
+
+	"google.golang.org/grpc"
+	"google.golang.org/grpc/credentials/insecure"
+)
+
+// A wrapper chain of the given depth over a lazily dialled *grpc.ClientConn
+// (no network is used): the interceptors of the OUTERMOST wrapper must be
+// handed the underlying standard gRPC connection.
+func TestZZGovcReplay(t *testing.T) {
+	cc, err := grpc.Dial("passthrough:///govc-replay", grpc.WithTransportCredentials(insecure.NewCredentials()))
+	if err != nil {
+		t.Skipf("cannot create a lazy ClientConn: %%v", err)
+	}
+	defer cc.Close()
+	stop := errors.New("stop")
+	pass := func(ctx context.Context, method string, req, reply interface{}, c *grpc.ClientConn, invoker grpc.UnaryInvoker, opts ...grpc.CallOption) error {
+		return invoker(ctx, method, req, reply, c, opts...)
+	}
+	passS := func(ctx context.Context, desc *grpc.StreamDesc, c *grpc.ClientConn, method string, streamer grpc.Streamer, opts ...grpc.CallOption) (grpc.ClientStream, error) {
+		return streamer(ctx, desc, c, method, opts...)
+	}
+	for depth := 1; depth <= %d; depth++ {
+		var ch grpc.ClientConnInterface = cc
+		for i := 1; i < depth; i++ {
+			ch = InterceptClientConn(ch, pass, passS)
+		}
+		var gotU, gotS *grpc.ClientConn
+		outer := InterceptClientConn(ch,
+			func(ctx context.Context, method string, req, reply interface{}, c *grpc.ClientConn, invoker grpc.UnaryInvoker, opts ...grpc.CallOption) error {
+				gotU = c
+				return stop
+			},
+			func(ctx context.Context, desc *grpc.StreamDesc, c *grpc.ClientConn, method string, streamer grpc.Streamer, opts ...grpc.CallOption) (grpc.ClientStream, error) {
+				gotS = c
+				return nil, stop
+			})
+		outer.Invoke(context.Background(), "/s/m", nil, nil)
+		outer.NewStream(context.Background(), &grpc.StreamDesc{}, "/s/m")
+		if gotU != cc {
+			t.Errorf("GOVC-REPLAY: VIOLATED depth %%d: unary interceptor got cc=%%v, want the underlying *grpc.ClientConn", depth, gotU)
+		}
+		if gotS != cc {
+			t.Errorf("GOVC-REPLAY: VIOLATED depth %%d: stream interceptor got cc=%%v, want the underlying *grpc.ClientConn", depth, gotS)
+		}
+	}
+}
+`
+
+func init() {
+	drv := func(cc *checkCtx, rec *obRecord, f *Failure) map[string]interface{} {
+		res := map[string]interface{}{"attempted": false}
+		if !strings.Contains(rec.o.Name, "connection_is_the_root_grpc_conn") {
+			res["reason"] = "no replay scenario for this obligation"
+			return res
+		}
+		res["inputs"] = map[string]interface{}{"wrapper depths tried": "1..4 over a lazily dialled *grpc.ClientConn"}
+		return runDriver(cc, modulePath, fmt.Sprintf(interceptDriver, 4), res)
+	}
+	replayDrivers["grpchan.(*interceptedChannel).NewStream"] = drv
+	replayDrivers["grpchan.(*interceptedChannel).Invoke"] = drv
+	replayDrivers["grpchan.unwrap"] = drv
+}
